@@ -64,7 +64,7 @@ def run_pps(F, R, rule, entry_names, kinds, cha_crates, registry_names=None, arm
                 R.ok(rule, inst, how, s.loc, how=how.split(":")[0])
                 hist[how.split(":")[0]] += 1
                 continue
-            if inst in audited:
+            if inst in audited and (not audited[inst].get("props") or R.pid in audited[inst]["props"]):
                 used.add(inst)
                 R.ok(rule, inst, "audited: " + audited[inst]["why"], s.loc, how="audited")
                 hist["audited"] += 1
